@@ -317,6 +317,21 @@ func ExtremesFamily() []Named {
 		&Def{Kind: "struct", Name: "DepHoldArr", Fields: []Field{f("ws", ArrayOf(Simple("DepWrap"))), f("tail", Simple("int32"))}})
 	out = append(out, Named{"extremes/nested-struct-holding-deprecated", s})
 
+	// containers nested three deep (the generators name their loop locals by depth)
+	s = &Schema{}
+	deepA := MapOf("string", MapOf("int32", ArrayOf(Simple("string"))))
+	deepB := MapOf("uint8", MapOf("string", MapOf("guid", Simple("int32"))))
+	deepC := ArrayOf(MapOf("string", ArrayOf(ArrayOf(Simple("int32")))))
+	deepD := MapOf("int64", ArrayOf(MapOf("bool", ArrayOf(Simple("DeepLeaf")))))
+	s.Defs = append(s.Defs,
+		&Def{Kind: "struct", Name: "DeepLeaf", Fields: []Field{f("a", Simple("int16")), f("s", Simple("string"))}},
+		&Def{Kind: "struct", Name: "DeepCS", Fields: []Field{f("a", deepA), f("b", deepB), f("c", deepC), f("d", deepD), f("tail", Simple("int32"))}},
+		&Def{Kind: "message", Name: "DeepCM", Fields: []Field{mf(1, "a", deepA), mf(2, "b", deepB), mf(3, "c", deepC), mf(4, "d", deepD), mf(5, "tail", Simple("int32"))}},
+		&Def{Kind: "union", Name: "DeepCU", Branches: []Branch{
+			{Index: 1, Def: &Def{Kind: "struct", Name: "DeepCUs", Fields: []Field{f("b", deepB), f("a", deepA)}}},
+			{Index: 2, Def: &Def{Kind: "message", Name: "DeepCUm", Fields: []Field{mf(1, "d", deepD), mf(2, "c", deepC)}}}}})
+	out = append(out, Named{"extremes/containers-three-deep", s})
+
 	// containers that C06 fills with 20 000 elements
 	s = &Schema{}
 	s.Defs = append(s.Defs,
